@@ -3,7 +3,7 @@
 (* class of the reference tokenizer (space, word, digit, span opener, span closer, unmatched).      *)
 EXTENDS Naturals, Sequences, TLC, Json
 CONSTANTS MaxLines, MaxLen, Emit
-Alphabet == {32, 97, 49, 60, 62, 63, 34, 12}
+Alphabet == {32, 97, 49, 60, 62, 63, 34, 12, 9}
 VARIABLES lines, phase
 vars == <<lines, phase>>
 Init == lines = << <<>> >> /\ phase = "build"
